@@ -134,3 +134,13 @@ package note
 //@ func Name.String returns (s)
 //@   pure
 //@   ensures s == nameText(n)
+
+// a duration read from YAML: whatever yaml decodes into the fraction, a zero numerator or denominator is refused (C09)
+//@ func yaml.Node.Decode returns (err)
+//@   trusted
+//@   modifies util.Rat
+
+//@ func Value.UnmarshalYAML returns (err)
+//@   modifies v, util.Rat
+//@   requires v != nil && value != nil
+//@   ensures err == nil ==> v.Num >= 1 && v.Denom >= 1
